@@ -11,6 +11,10 @@
      {"op":"AddRx","r":R} {"op":"RemoveRx","r":R} {"op":"ResetRx"}
      {"op":"SetFlag","f":"path"|"regexp","on":bool}
          configuration calls; the model state follows Apply.
+     {"op":"Chdir","d":B,"wd":B}
+         the process called os.Chdir(d); wd is what os.Getwd() reported afterwards (it must be
+         d - otherwise the scenario's directory is not what the check believes, class
+         "environment").  The model's current working directory follows; its table does not.
      {"op":"Q","via":V,"ins":[B..] or "ix":[index into InputSeq..],"outs":[[B..]..],"lens":[n..],"panic":S?}
          a query of the paths `ins` through V (Safety, SafetyFiles, caller-json, caller-logfmt,
          caller-color), repeated many times: outs[x] are the DISTINCT results seen for
@@ -22,7 +26,10 @@
    A result outside the allowed set is counted in `bad` (with a few examples) under its
    class: the name of the known deviation class if the as-built semantics (AllDevs, or a part
    of it) explains it, "unexplained" otherwise; the orchestrator turns the classes into
-   finding keys.  Queries do not change the state, so checking simply continues.            *)
+   finding keys.  A result that the as-built deviations do not explain is tried against the
+   two deviations of the newer dimensions ("StaleWd": relative form computed against the start
+   directory, "StopRel": relative strings end the scan of the table) before it is called
+   unexplained.  Queries do not change the state, so checking simply continues.             *)
 EXTENDS Paths, Json, SequencesExt
 
 CONSTANTS TraceFile,   \* ndjson file recorded by the worker
@@ -47,10 +54,14 @@ DevClass(s, p) ==
 \* a part of it - a tree in which only some of the deviations were repaired) or not at all
 ClassBad(s, p, o) ==
     IF o \in Outputs(s, p, AllDevs) \/ \E D \in SUBSET AllDevs : o \in Outputs(s, p, D)
-    THEN DevClass(s, p) ELSE "unexplained"
+    THEN DevClass(s, p)
+    ELSE IF s.wd # Cwd /\ o \in Outputs(s, p, {"StaleWd"}) THEN "stale-working-directory"
+    ELSE IF ~Abs(p) /\ o \in Outputs(s, p, {"StopRel"}) THEN "relative-path-not-hardened"
+    ELSE "unexplained"
 
 Classes == {"panic", "length", "environment", "privacy-flag-off-by-default", "unexplained", "empty-prefix",
-            "root-prefix", "home-exposed", "prefix-without-boundary", "inner-occurrence-rewritten"}
+            "root-prefix", "home-exposed", "prefix-without-boundary", "inner-occurrence-rewritten",
+            "stale-working-directory", "relative-path-not-hardened"}
 MaxEx == 8      \* examples kept per class (the count is exact)
 
 \* the queried paths of a line: given literally or as indexes into InputSeq
@@ -109,6 +120,11 @@ TNext ==
                         J == Judge(st, e, ins, i, m)
                     IN /\ bad' = AddBad(bad, LengthBad(e, n, i) \cup J.bad)
                        /\ stats' = [alts |-> stats.alts + J.alts, seen |-> stats.seen + J.seen, queries |-> stats.queries + m]
+       ELSE IF e.op = "Chdir"
+       THEN /\ st' = Apply(st, e)
+            /\ stats' = stats
+            /\ bad' = AddBad(bad, IF e.wd # e.d \/ ~Abs(e.d)
+                                  THEN {[line |-> i, idx |-> 0, cls |-> "environment", got |-> <<e.d, e.wd>>, expected |-> {e.d}]} ELSE {})
        ELSE st' = Apply(st, e) /\ UNCHANGED <<bad, stats>>
 
 TSpec == TInit /\ [][TNext]_<<st, i, bad, stats>>
